@@ -51,6 +51,7 @@ func run(e *harness.Env) {
 	c.spaceD()
 	c.spaceT()
 	c.spaceM()
+	c.spaceL()
 }
 
 // ---- one document ---------------------------------------------------------------------------------------
